@@ -266,6 +266,7 @@ func (sc *syncCase) discard(i int, t uint64) {
 }
 
 func (sc *syncCase) restart(i int) error {
+	before := dbObs(sc.reps[i])
 	if err := sc.reps[i].Close(); err != nil {
 		return fmt.Errorf("replica close: %w", err)
 	}
@@ -277,6 +278,9 @@ func (sc *syncCase) restart(i int) error {
 	after := dbObs(d)
 	sc.repStep(i, fmt.Sprintf("SRestart %s", after.term(sc.in)), map[string]any{"op": "restart", "after": after.js()})
 	sc.stats["restart"]++
+	if after != before {
+		sc.find(fmt.Sprintf("Close+Open changed the state of replica %d: %v -> %v (precommitted transactions dropped, or discarded ones brought back)", i, before.js(), after.js()))
+	}
 	sc.restarts[i]++
 	sc.checkReplica(i)
 	return nil
